@@ -51,7 +51,7 @@ type gproc struct {
 }
 
 var modelOps = map[string][][2]int{ // process -> list of (cid, size); size -1 = lookup
-	"R1": {{200, 1}, {200, 2}}, "R2": {{201, 3}}, "D1": {{200, -1}, {201, -1}}, "D2": {{200, -1}},
+	"R1": {{200, 1}, {200, 2}}, "R2": {{201, 3}}, "D1": {{200, -1}, {201, -1}}, "D2": {{3, -1}, {200, -1}},
 }
 
 func replaySchedule(c *ctx, cs M) error {
@@ -112,6 +112,12 @@ func replaySchedule(c *ctx, cs M) error {
 	emit := func(p *gproc, e hookEv) {
 		c.emit(M{"ev": "hook", "g": p.name, "point": e.point, "cid": e.cid, "held": e.held, "size": e.size, "err": e.err})
 	}
+	want := func(name, label string) string {
+		if name[0] == 'D' {
+			return map[string]string{"acq": "rlock", "acc": "read", "rel": "runlock"}[label]
+		}
+		return map[string]string{"acq": "wlock", "acc": "write", "rel": "wunlock"}[label]
+	}
 	for _, st := range anyList(cs["sched"]) {
 		s := anyList(st)
 		p := procs[s[0].(string)]
@@ -122,6 +128,12 @@ func replaySchedule(c *ctx, cs M) error {
 			return err
 		}
 		emit(p, e)
+		if e.point != want(p.name, label) {
+			// the real call did not pass the hook points of a locked registry access in order
+			// (lock acquisition / release hook missing): recorded, the schedule cannot be continued
+			c.emit(M{"ev": "desync", "g": p.name, "want": want(p.name, label), "got": e.point})
+			return nil
+		}
 		if label == "rel" { // released from the unlock hook: the call returns
 			p.resume <- struct{}{}
 			e, err = wait(p)
@@ -183,6 +195,9 @@ func freeRun(c *ctx, nDec, nReg, nOps int) {
 			<-start
 			for k := 0; k < nOps; k++ {
 				cid := 200 + r.Intn(3)
+				if i < nDec && r.Intn(3) == 0 {
+					cid = []int{3, 6, 16}[r.Intn(3)] // standard entries live in the same map
+				}
 				if i < nDec {
 					_, size, err := lorawan.GetMACPayloadAndSize(true, lorawan.CID(cid))
 					e := hookEv{point: "ret", cid: cid, size: size}
